@@ -1,0 +1,11 @@
+//go:build verif
+
+// Contracts for the deductive checker in /verif (govc). Comment-only; ignored without the
+// "verif" build tag.
+
+package crypto
+
+// pk_addr(pk) is the address derived from a public key (a hash; uninterpreted).
+//@ iface func (pk PublicKey) Address() (r crypto.Address)
+//@   mode value
+//@   ensures r == pk_addr(pk) && len(r) == 20
